@@ -44,13 +44,21 @@ REQUIRED_BRANCHES = ['perfile', 'cube', 'conv_memmap_on', 'conv_memmap_off', 'fi
                      'name_len_30', 'nap_1', 'nap_gt1', 'filters_2', 'filters_3', 'flat', 'nonflat',
                      'general_sed', 'err_not_proportional', 'independent_expectation',
                      'cube_memmap_on_vs_perfile', 'cube_memmap_off_vs_perfile',
+                     'no_apertures', 'unit_sed_mJy', 'unit_sed_Jy', 'unit_sed_erg', 'unit_cube_mJy', 'unit_cube_Jy',
+                     'perfile_fit_memmap_on', 'cube_table_permuted', 'cube_table_same_order',
                      'models_1', 'models_8', 'sed_subdir']
 ASSUMPTIONS = ['astropy FITS I/O stores float64 columns and string columns faithfully (observed, not proved)',
                'IEEE rounding is not modelled: flat-spectrum and cross-format comparisons use 1e-11 / 1e-12 relative',
                'memmap fits (model fluxes and their log10 held / evaluated as float32): budget '
                '2^-24 (1/ln 10 + 3 |log10 F|max) on each log10 model flux, propagated to first order through the normal '
                'equations (av, sc) and through chi2, safety factor 2 (1e-6 .. 1e-5 relative for these sources)',
-               'numpy orders U-strings by code point, as the model orders String']
+               'numpy orders U-strings by code point, as the model orders String',
+               'cube packages: the parameter table must list the models in the order of the cube (docs/creating_model_packages.rst); '
+               'a cube package with a permuted table is refused by the code ("Model names in SED cube and parameter file do '
+               'not match") and is checked as a compared refusal (model: namesMismatch), so "any row permutation of the '
+               'parameter table" is exercised on the per-file format only',
+               'per-file SEDs are stored in mJy, Jy or erg/cm2/s, cubes in mJy or Jy (the cube path converts with '
+               'unit.to(mJy), which only exists for flux densities)']
 EXHAUSTIVE = {'quick': False, 'thorough': True}
 TRUSTED_EXTRA = ['the per-aperture filter functionals are abstract in the model (cv, ce); their values are pinned '
                  'only by the flat-spectrum / linearity oracle above and by C06']
@@ -140,10 +148,21 @@ def gen_case(rng, n=None, table_perm=None, directed=None):
                    for t in table]
     cube = names[:]
     rng.shuffle(cube)
+    # a cube package whose parameter table is in another row order than the cube: the code refuses it
+    cube_table = None
+    if directed.get('cube_perm', rng.random() < 0.3):
+        cube_table = cube[:]
+        rng.shuffle(cube_table)
     nap = directed.get('nap') or rng.randint(1, 5)
     aps = sorted({nice(rng, 50., 2e4, 3) for _ in range(nap)})
     while len(aps) < nap:
         aps = sorted(set(aps) | {nice(rng, 50., 2e4, 3)})
+    # aperture-less package: SED objects / cube without an aperture list (one unnamed aperture)
+    if directed.get('no_aps', nap == 1 and rng.random() < 0.4):
+        nap, aps = 1, None
+    # stored flux units: per-file SEDs in mJy, Jy or erg/cm2/s (nu F_nu); the cube in mJy or Jy
+    unit_sed = directed.get('unit_sed', rng.choice(['mJy', 'mJy', 'Jy', 'erg/cm2/s']))
+    unit_cube = directed.get('unit_cube', rng.choice(['mJy', 'Jy']))
     nw = rng.randint(4, 24)
     wav = sorted({nice(rng, 0.08, 900., 4) for _ in range(nw)} | {0.05, 1500.})
     nf = directed.get('nf') or rng.choice([2, 3])
@@ -176,17 +195,18 @@ def gen_case(rng, n=None, table_perm=None, directed=None):
                 sed_store=directed.get('sed_store', rng.choice(['nu_inc', 'nu_dec'])),
                 cube_store=directed.get('cube_store', rng.choice(['nu_inc', 'nu_dec'])),
                 g=g, h=h, c=c, e=e, tilt=tilt, etilt=etilt, general=general, filters=filters, src=src, av=[0., 40.],
-                flat=flat)
+                flat=flat, unit_sed=unit_sed, unit_cube=unit_cube, cube_table=cube_table)
 
 
 DIRECTED = [
-    dict(n=1, nap=1, nf=2, flat=True, sed_store='nu_inc', cube_store='nu_dec', pad=True),
+    dict(n=1, nap=1, nf=2, flat=True, sed_store='nu_inc', cube_store='nu_dec', pad=True, no_aps=True, unit_sed='Jy', unit_cube='mJy', cube_perm=True),
     dict(n=8, nap=5, nf=3, flat=False, general=True, sed_store='nu_dec', cube_store='nu_inc', pad=True, name30=True, subdir=True),
-    dict(n=3, nap=1, nf=3, flat=True, sed_store='nu_dec', cube_store='nu_dec', pad=False, name30=True),
-    dict(n=4, nap=2, nf=2, flat=False, general=False, sed_store='nu_inc', cube_store='nu_inc', pad=True, subdir=True),
+    dict(n=3, nap=1, nf=3, flat=True, sed_store='nu_dec', cube_store='nu_dec', pad=False, name30=True, no_aps=True, unit_sed='erg/cm2/s', unit_cube='Jy', cube_perm=True),
+    dict(n=4, nap=2, nf=2, flat=False, general=False, sed_store='nu_inc', cube_store='nu_inc', pad=True, subdir=True, unit_sed='erg/cm2/s', unit_cube='mJy', cube_perm=True),
     dict(n=5, nap=3, nf=2, flat=True, sed_store='nu_dec', cube_store='nu_inc', pad=True, subdir=True),
     dict(n=2, nap=4, nf=3, flat=False, general=True, sed_store='nu_inc', cube_store='nu_dec', pad=False),
-    dict(n=5, nap=1, nf=2, flat=False, general=True, sed_store='nu_dec', cube_store='nu_dec', pad=True),
+    dict(n=5, nap=1, nf=2, flat=False, general=True, sed_store='nu_dec', cube_store='nu_dec', pad=True, no_aps=False, unit_sed='Jy', unit_cube='Jy', cube_perm=True),
+    dict(n=6, nap=1, nf=3, flat=False, general=True, sed_store='nu_inc', cube_store='nu_inc', pad=True, no_aps=True, unit_sed='mJy', unit_cube='Jy', cube_perm=False),
 ]
 
 
@@ -223,7 +243,26 @@ def sed_arrays(case):
     return c[:, :, None] * g[None, None, :] * t[:, None, :], e[:, :, None] * h[None, None, :] * u_[:, None, :]
 
 
-def write_sed_raw(path, name, wav_um, flux, err, aps_au):
+UNITS = {'mJy': 'mJy', 'Jy': 'Jy', 'erg/cm2/s': 'erg / (cm2 s)'}
+
+
+def stored_values(x_mjy, unit, wav_um):
+    """the numbers to store in `unit` for a flux density given in mJy on the wavelength grid `wav_um` (last axis)"""
+    from astropy import units as u
+    if unit == 'mJy':
+        return x_mjy
+    if unit == 'Jy':
+        return x_mjy * 1e-3
+    nu = (np.array(wav_um, dtype=float) * u.micron).to(u.Hz, equivalencies=u.spectral()).value
+    return x_mjy * 1e-26 * nu           # nu F_nu in erg / s / cm^2
+
+
+def astropy_unit(unit):
+    from astropy import units as u
+    return {'mJy': u.mJy, 'Jy': u.Jy, 'erg/cm2/s': u.erg / u.cm ** 2 / u.s}[unit]
+
+
+def write_sed_raw(path, name, wav_um, flux, err, aps_au, unit='mJy'):
     """a seds/*.fits file in the layout `SED.read` expects, wavelengths stored exactly in the order given
     (`SED.write` always stores increasing frequency; the original model packages store decreasing frequency)"""
     from astropy.io import fits
@@ -233,18 +272,23 @@ def write_sed_raw(path, name, wav_um, flux, err, aps_au):
     h0 = fits.PrimaryHDU()
     h0.header['MODEL'] = name
     h0.header['DISTANCE'] = (1. * u.kpc).to(u.cm).value
+    funit = astropy_unit(unit).to_string(format='fits')
+    if aps_au is None:                  # as SED.write stores an SED without apertures
+        aps_au, apunit = [1.e-30], 'cm'
+    else:
+        apunit = 'AU'
     h0.header['NAP'] = len(aps_au)
     h0.header['NWAV'] = len(wav)
     h1 = fits.BinTableHDU.from_columns([fits.Column(name='WAVELENGTH', format='D', unit='um', array=wav),
                                         fits.Column(name='FREQUENCY', format='D', unit='Hz', array=nu)])
     h1.header['EXTNAME'] = 'WAVELENGTHS'
-    h2 = fits.BinTableHDU.from_columns([fits.Column(name='APERTURE', format='D', unit='AU',
+    h2 = fits.BinTableHDU.from_columns([fits.Column(name='APERTURE', format='D', unit=apunit,
                                                     array=np.array(aps_au, dtype=float))])
     h2.header['EXTNAME'] = 'APERTURES'
     nw = len(wav)
-    h3 = fits.BinTableHDU.from_columns([fits.Column(name='TOTAL_FLUX', format='%dD' % nw, unit='mJy',
+    h3 = fits.BinTableHDU.from_columns([fits.Column(name='TOTAL_FLUX', format='%dD' % nw, unit=funit,
                                                     array=np.array(flux, dtype=float).reshape(len(aps_au), nw)),
-                                        fits.Column(name='TOTAL_FLUX_ERR', format='%dD' % nw, unit='mJy',
+                                        fits.Column(name='TOTAL_FLUX_ERR', format='%dD' % nw, unit=funit,
                                                     array=np.array(err, dtype=float).reshape(len(aps_au), nw))])
     h3.header['EXTNAME'] = 'SEDS'
     fits.HDUList([h0, h1, h2, h3]).writeto(path, overwrite=True)
@@ -253,11 +297,14 @@ def write_sed_raw(path, name, wav_um, flux, err, aps_au):
 def build_perfile(case, d1):
     names = case['names']
     flux, err = sed_arrays(case)
+    unit = case.get('unit_sed', 'mJy')
+    flux, err = stored_values(flux, unit, case['wav']), stored_values(err, unit, case['wav'])
     params = {'PAR1': [float(names.index(t.strip())) for t in case['table']]}
     plain = case['sed_store'] == 'nu_inc' and not any('/' in s for s in case['stems'].values())
     if plain:
         pk.write_sed_package(d1, names, case['wav'], flux, err, apertures_au=case['aps'],
-                             table_order=case['table'], params=params, file_names=case['stems'])
+                             table_order=case['table'], params=params, file_names=case['stems'],
+                             unit=astropy_unit(unit))
         return
     os.makedirs(os.path.join(d1, 'seds'), exist_ok=True)
     pk.write_conf(d1, aperture_dependent=case['nap'] > 1, version=1)
@@ -266,10 +313,10 @@ def build_perfile(case, d1):
         path = os.path.join(d1, 'seds', case['stems'][nme] + '.fits')
         os.makedirs(os.path.dirname(path), exist_ok=True)
         if case['sed_store'] == 'nu_inc':
-            pk.make_sed(nme, wav, flux[i], err[i], case['aps']).write(path, overwrite=True)
+            pk.make_sed(nme, wav, flux[i], err[i], case['aps'], unit=astropy_unit(unit)).write(path, overwrite=True)
         else:
             # increasing wavelength = decreasing frequency, stored as given
-            write_sed_raw(path, nme, wav, flux[i], err[i], case['aps'])
+            write_sed_raw(path, nme, wav, flux[i], err[i], case['aps'], unit=unit)
     pk.write_parameters(d1, case['table'], params)
 
 
@@ -278,11 +325,12 @@ def build_cube(case, d2):
     flux, err = sed_arrays(case)
     idx = [names.index(nme) for nme in case['cube']]
     wav = np.array(case['wav'], dtype=float)
-    val, unc = flux[idx], err[idx]
+    unit = case.get('unit_cube', 'mJy')
+    val, unc = stored_values(flux[idx], unit, case['wav']), stored_values(err[idx], unit, case['wav'])
     if case['cube_store'] == 'nu_inc':      # increasing frequency = decreasing wavelength
         wav, val, unc = wav[::-1], val[:, :, ::-1], unc[:, :, ::-1]
     pk.write_cube_package(d2, case['cube'], wav, val, unc, apertures_au=case['aps'],
-                          params={'PAR1': [float(i) for i in idx]})
+                          params={'PAR1': [float(i) for i in idx]}, unit=astropy_unit(unit))
 
 
 def make_filters(case):
@@ -307,13 +355,18 @@ def read_convolved(path):
         n = len(names)
         flux = np.array(t['TOTAL_FLUX'], dtype=float).reshape(n, -1)
         err = np.array(t['TOTAL_FLUX_ERR'], dtype=float).reshape(n, -1)
-        aps = np.array(h['APERTURES'].data['APERTURE'], dtype=float)
+        if 'APERTURES' in h:
+            from astropy import units as u
+            apu = u.Unit(h['APERTURES'].columns[0].unit or 'AU')
+            aps = (np.array(h['APERTURES'].data['APERTURE'], dtype=float) * apu).to(u.au).value
+        else:
+            aps = None
         wavl = float(h[0].header['FILTWAV'])
     with common.quiet():
         c = ConvolvedFluxes.read(path)
     via = dict(names=[str(x) for x in c.model_names], flux=np.asarray(c.flux.to('mJy').value, dtype=float),
                err=np.asarray(c.error.to('mJy').value, dtype=float),
-               aps=np.asarray(c.apertures.to('au').value, dtype=float),
+               aps=None if c.apertures is None else np.asarray(c.apertures.to('au').value, dtype=float),
                wav=float(c.central_wavelength.to('micron').value))
     return dict(names=names, flux=flux, err=err, aps=aps, wav=wavl), via
 
@@ -363,30 +416,48 @@ def expected_rows(case, filt):
     return np.sum(flux * R, axis=2), np.sqrt(np.sum((err * R) ** 2, axis=2))
 
 
-def check_file(case, tab, via, expect_names, fname, filt, what):
+def same_aps(a, b):
+    return (a is None and b is None) or (a is not None and b is not None and len(a) == len(b) and
+                                         all(rel(x, y) < 1e-14 for x, y in zip(a, b)))
+
+
+def expected_apertures(case, what):
+    """the aperture list a convolved file must carry: the SEDs' own; for an aperture-less package the per-file
+    format carries the one-row placeholder `SED.write` stores (1e-30 cm), the cube format none"""
+    from astropy import units as u
+    if case['aps'] is not None:
+        return list(case['aps'])
+    return [(1.e-30 * u.cm).to(u.au).value] if what.startswith('per-file') else None
+
+
+def check_file(case, tab, via, expect_names, fname, filt, what, scale=1.):
     """property checks on one convolved file; returns (list of failures, identified model index per row)"""
     fails = []
     names = case['names']
     n, nap = len(names), case['nap']
     if tab['names'] != via['names'] or not np.array_equal(tab['flux'], via['flux']) or \
-            not np.array_equal(tab['err'], via['err']) or not np.array_equal(tab['aps'], via['aps']) or tab['wav'] != via['wav']:
+            not np.array_equal(tab['err'], via['err']) or not same_aps(tab['aps'], via['aps']) or tab['wav'] != via['wav']:
         fails.append('%s %s: ConvolvedFluxes.read differs from the FITS table' % (what, fname))
     if [x.strip() for x in tab['names']] != expect_names:
         fails.append('%s %s: row labels %r, expected %s order %r' % (what, fname, tab['names'], what, expect_names))
     if tab['flux'].shape != (n, nap) or tab['err'].shape != (n, nap):
         fails.append('%s %s: shape %r, expected %r' % (what, fname, tab['flux'].shape, (n, nap)))
         return fails, None
-    if not all(rel(x, y) < 1e-14 for x, y in zip(tab['aps'], case['aps'])) or len(tab['aps']) != nap:
-        fails.append('%s %s: apertures %r, SED apertures %r' % (what, fname, [float(v) for v in tab['aps']], case['aps']))
+    want_aps = expected_apertures(case, what)
+    if (tab['aps'] is None) != (want_aps is None) or (want_aps is not None and (
+            len(tab['aps']) != len(want_aps) or not all(rel(x, y) < 1e-14 for x, y in zip(tab['aps'], want_aps)))):
+        fails.append('%s %s: apertures %r, SED apertures %r' % (what, fname, None if tab['aps'] is None else
+                                                                [float(v) for v in tab['aps']], want_aps))
     if rel(tab['wav'], filt['cw']) > 1e-14:
         fails.append('%s %s: FILTWAV %r, filter central wavelength %r' % (what, fname, tab['wav'], filt['cw']))
     expF, expE = expected_rows(case, filt)
+    expF, expE = expF * scale, expE * scale
     if case['flat']:
         # flat F_nu through a normalised filter inside the SED range: exactly the constant (C06's flat-spectrum law);
         # this also pins the harness's own integrator
         if not all(rel(expF[m][a], case['c'][m][a]) < 1e-11 for m in range(n) for a in range(nap)):
             raise RuntimeError('harness: own convolution of a flat SED is not its constant')
-        expF = np.array(case['c'], dtype=float)
+        expF = np.array(case['c'], dtype=float) * scale
     ident = []
     for i in range(n):
         mf = identify(tab['flux'][i], expF)
@@ -407,7 +478,7 @@ def check_file(case, tab, via, expect_names, fname, filt, what):
 def fit_variant(case, d, fnames, use_memmap, src_flux):
     nf = len(fnames)
     ext = pk.make_extinction(EXT_W, EXT_CHI)
-    arcsec = [case['aps'][0] * 1.3 / 1000.] * nf
+    arcsec = [(case['aps'][0] if case['aps'] else 1000.) * 1.3 / 1000.] * nf
     fitter = pk.make_fitter(d, fnames, arcsec, ext, case['av'], distance_range_kpc=(1., 2.), use_memmap=use_memmap)
     s = pk.make_source('src', [1] * nf, src_flux, [f * r for f, r in zip(src_flux, case['src']['rel'])])
     with common.quiet():
@@ -456,7 +527,10 @@ def impl_side(case, d):
     srt = sorted(names)
     br |= {'perfile', 'cube', 'sed_' + case['sed_store'], 'cube_' + case['cube_store'],
            'nap_1' if case['nap'] == 1 else 'nap_gt1', 'filters_%d' % len(filters),
-           'flat' if case['flat'] else 'nonflat', 'independent_expectation'}
+           'flat' if case['flat'] else 'nonflat', 'independent_expectation',
+           'unit_sed_' + case.get('unit_sed', 'mJy').split('/')[0], 'unit_cube_' + case.get('unit_cube', 'mJy')}
+    if case['aps'] is None:
+        br.add('no_apertures')
     if case.get('general'):
         br |= {'general_sed', 'err_not_proportional'}
     if obs['listing'] != table_stripped:
@@ -550,11 +624,16 @@ def impl_side(case, d):
         # largest |log10| of any model flux the fitter can see (all apertures; distances 1-2 kpc scale by <= 4)
         lmax = max(float(np.max(np.abs(np.log10(v1[fn]['flux'])))) for fn in fnames) + np.log10(4.)
         tav, tsc, tchi = f32_budget(case, fitter, lmax)
-        variants = [('cube use_memmap=False', d2, False), ('cube use_memmap=True', d2, True)]
+        variants = [('per-file use_memmap=True', d1, True), ('cube use_memmap=False', d2, False),
+                    ('cube use_memmap=True', d2, True)]
         relaxed = 0
         for what, dd, um in variants:
-            br.add('fit_memmap_on' if um else 'fit_memmap_off')
+            if dd == d1:
+                br.add('perfile_fit_memmap_on')
+            else:
+                br.add('fit_memmap_on' if um else 'fit_memmap_off')
             got, _ = fit_variant(case, dd, fnames, um, src_flux)
+            um = um and dd != d1          # the per-file reader has no float32 path: exact agreement expected
             if sorted(got) != sorted(ref):
                 fails.append('fit from %s: model names %r, per-file %r' % (what, sorted(got), sorted(ref)))
                 continue
@@ -576,6 +655,18 @@ def impl_side(case, d):
     except Exception as ex:
         import traceback
         fails.append('Fitter raised %s: %s\n%s' % (type(ex).__name__, ex, traceback.format_exc()[-1500:]))
+
+    # ---- a cube package whose parameter table is in another row order (compared refusal; done last)
+    if case.get('cube_table') is not None and not fails:
+        idx = [names.index(nme) for nme in case['cube_table']]
+        pk.write_parameters(d2, case['cube_table'], {'PAR1': [float(i) for i in idx]})
+        try:
+            with common.quiet():
+                convolve_model_dir(d2, filters, overwrite=True, memmap=False)
+            obs['cube_table_outcome'] = None
+        except Exception as ex:
+            obs['cube_table_outcome'] = type(ex).__name__
+        br.add('cube_table_permuted' if case['cube_table'] != case['cube'] else 'cube_table_same_order')
     return fails, obs, br
 
 
@@ -613,12 +704,23 @@ def model_side(case, obs):
             e = t.nats()
             rows.append((f, e))
         out['v%d' % v] = dict(names=nm, rows=rows)
+    if case.get('cube_table') is not None and 'cube_table_outcome' in obs:
+        raw = drv.ask_raw('convnames 2 %d %s %s' % (nap, names_line(case['cube']), names_line(case['cube_table'])))
+        toks = raw.split()
+        out['cube_table'] = toks[1] if toks and toks[0] == 'err' else None
     return out
 
 
 def compare_model(case, obs, mod):
     """model prediction against the identified content of the real files"""
     dis = []
+    if 'cube_table' in mod:
+        want = {'namesMismatch': 'ValueError', None: None}.get(mod['cube_table'], mod['cube_table'])
+        if obs['cube_table_outcome'] != want:
+            dis.append('cube package with parameter table %r for cube %r: implementation %s, model convolveV2 %s'
+                       % (case['cube_table'], case['cube'],
+                          'raised ' + obs['cube_table_outcome'] if obs['cube_table_outcome'] else 'returned',
+                          'refuses (%s)' % mod['cube_table'] if mod['cube_table'] else 'returns'))
     names = case['names']
     nap = case['nap']
     lst = obs['listing']
